@@ -8,7 +8,6 @@ package buf
 
 import (
 	"fmt"
-	"strings"
 	"testing"
 	"testing/synctest"
 
@@ -149,52 +148,22 @@ func observe(v any, opt *obs.Options, whole bool, mask map[string]bool) string {
 	return render(observeMembers(v, opt, whole), mask)
 }
 
-// member is one top-level member of an observation (a field, an accessor, an
-// accessor with synthesised arguments, the consumer functions).
-type member struct{ name, text string }
-
-func observeMembers(v any, opt *obs.Options, whole bool) []member {
+func observeMembers(v any, opt *obs.Options, whole bool) []obs.Member {
 	o2 := *opt
 	o2.Args, o2.ArgMethod = consume.SynthArgs, func(n string) bool { return consume.ReadOnlyName(n) && n != "Equals" && n != "Equal" }
-	var ms []member
-	o2.Part = func(n, t string) { ms = append(ms, member{n, t}) }
-	s := obs.Observe(v, &o2)
-	if len(ms) == 0 {
-		ms = []member{{"(value)", s}}
-	}
+	ms := obs.Members(v, &o2)
 	if whole {
-		ms = append(ms, member{"(consumers)", consume.Consumers(v)})
+		ms = append(ms, obs.Member{Name: "(consumers)", Text: consume.Consumers(v)})
 	}
 	return ms
 }
 
-func render(ms []member, mask map[string]bool) string {
-	var sb strings.Builder
-	for _, m := range ms {
-		if !mask[m.name] {
-			sb.WriteString(m.text)
-		}
-	}
-	return sb.String()
-}
+func render(ms []obs.Member, mask map[string]bool) string { return obs.Render(ms, mask) }
 
-// unstable names the members whose text differs between two observations taken
-// one after the other with nothing in between: an accessor that reads a clock,
-// counts its calls or reports anything else that is not a function of the parsed
-// value. Such a member cannot tell whether an overwrite changed the value and is
-// left out of this value's comparisons.
-func unstable(a, b []member) map[string]bool {
-	var mask map[string]bool
-	for i := range a {
-		if i >= len(b) || a[i].name != b[i].name || a[i].text != b[i].text {
-			if mask == nil {
-				mask = map[string]bool{}
-			}
-			mask[a[i].name] = true
-		}
-	}
-	return mask
-}
+// unstable: see obs.Unstable. Between the two observations the same bytes are
+// parsed once more from a private copy (by the caller), so that a member that
+// counts parses is recognised too.
+func unstable(a, b []obs.Member) map[string]bool { return obs.Unstable(a, b) }
 
 func scribbleBytes(b []byte, mode int, seed uint64) {
 	switch mode {
@@ -447,8 +416,15 @@ func execute(s *engine.Script, o *engine.Outcome) {
 				subject = tr.Val
 				o.Fault("value-untouched-until-first-overwrite")
 			}
+			again := func() {
+				// parsing is something the consumer keeps doing: it must not count as
+				// a change of the values it already holds
+				private := append([]byte(nil), pool[b][off:end]...)
+				ad.Parse(private, ad.Arg(op.Shape))
+			}
 			if o.Guard("observe "+ad.Name, func() {
 				first := observeMembers(subject, lv.opt, !lv.restricted)
+				again()
 				lv.mask = unstable(first, observeMembers(subject, lv.opt, !lv.restricted))
 				lv.base = render(first, lv.mask)
 			}) {
@@ -457,6 +433,7 @@ func execute(s *engine.Script, o *engine.Outcome) {
 			if lv.fullOpt != nil {
 				if o.Guard("observe(full) "+ad.Name, func() {
 					first := observeMembers(subject, lv.fullOpt, true)
+					again()
 					lv.fullMask = unstable(first, observeMembers(subject, lv.fullOpt, true))
 					lv.fullBase = render(first, lv.fullMask)
 				}) {
